@@ -304,6 +304,65 @@ def c09_tables(tier):
                 clash.append((k, keys[k], (n, v)))
             keys[k] = (n, v)
     out.append(rec("C09/cache", "keys", "cache-key-injective(name,version)", not clash, clash[:3]))
+    out.extend(c09_raw_annotations())
+    return out
+
+
+def _raw_annotated(node, path, acc):
+    if isinstance(node, dict):
+        md = node.get("metadata")
+        if isinstance(md, dict) and ("minVersion" in md or "maxVersion" in md):
+            acc.append((path, md.get("minVersion"), md.get("maxVersion")))
+        for k, v in node.items():
+            _raw_annotated(v, path + (k,), acc)
+    elif isinstance(node, list):
+        for i, v in enumerate(node):
+            _raw_annotated(v, path + (i,), acc)
+
+
+def c09_raw_annotations():
+    """Every minVersion / maxVersion written in a schema FILE (read here with plain json, not through the repository's
+    reference expansion) must still be there, at the same JSON path, in the expanded schema the version filter works on -
+    an annotation written next to a "$ref" would be dropped by the expansion and the keyword accepted at every version.
+    For keyword-level annotations (path .../properties/<k>) the keyword must moreover be absent from the versioned schema
+    just outside its range and present at its bounds."""
+    import json as _json
+    from mappyfile.validator import Validator
+    out = []
+    v0 = SC.shared_validator()
+    folder = v0.get_schemas_folder()
+    n_total = 0
+    for name in SC.schema_names():
+        raw = _json.load(open(os.path.join(folder, name + ".json"), encoding="utf-8"))
+        acc = []
+        _raw_annotated(raw, (), acc)
+        exp = SC.expanded(name)
+        for path, lo, hi in acc:
+            n_total += 1
+            node = exp
+            ok = True
+            for k in path:
+                try:
+                    node = node[k]
+                except (KeyError, IndexError, TypeError):
+                    ok = False
+                    break
+            md = node.get("metadata", {}) if ok and isinstance(node, dict) else {}
+            ok = ok and isinstance(md, dict) and md.get("minVersion") == lo and md.get("maxVersion") == hi
+            out.append(rec("C09/raw", f"{name}:{'/'.join(map(str, path))}", "file-annotation-survives-expansion", ok,
+                           f"file says min={lo} max={hi}, expanded schema says {md!r}"))
+            if len(path) == 2 and path[0] == "properties" and name in SC.object_types():
+                kw = path[1]
+                for bound, delta, inside in ((lo, -0.05, False), (lo, 0.0, True), (hi, 0.05, False), (hi, 0.0, True)):
+                    if bound is None:
+                        continue
+                    ver = round(bound + delta, 2)
+                    if inside and ((lo is not None and ver < lo) or (hi is not None and ver > hi)):
+                        continue
+                    props = SC.plain(Validator().get_versioned_schema(ver, name)).get("properties", {})
+                    out.append(rec("C09/raw", f"{name}.{kw}@{ver}", "keyword-present-iff-in-file-range", (kw in props) == inside,
+                                   f"file range [{lo}, {hi}], version {ver}: keyword {'present' if kw in props else 'absent'}"))
+    out.append(rec("C09/raw", "count", "some-file-annotations-found", n_total > 50, n_total))
     return out
 
 
